@@ -52,14 +52,19 @@ def _open_questions(ctx):
 def analyse(prop, root):
     """Run the rule module of `prop` over the tree at root; returns Ctx (never raises).
 
-    When the tree as written leaves something undecided (and nothing is violated), the tree is read a second time with
-    small helpers dissolved into their callers (tfsa/inline.py - the inverse of "extract method"); that reading is adopted
-    when it decides everything or reports a violation."""
+    The tree is read as written.  When that reading leaves something undecided or reports a violation, the tree is read a
+    second time with small helpers dissolved into their callers (tfsa/inline.py - the inverse of "extract method"), and the
+    two readings of what is equivalent code are reconciled per rule:
+      * undecided first, decided second: the second reading is adopted (holds or violated);
+      * violated in one reading, holds in the other: a contradiction between two readings of equivalent code - one of them
+        misreads the code, and it is not known which: UNDECIDED, never a violation;
+      * violated in one reading, undecided in the other (or the other reading could not be completed): the violation stands.
+    VERIF_NO_SECOND_READING=1 switches the second reading off."""
     ctx, mod = _analyse_once(prop, root, False)
     if os.environ.get("VERIF_NO_SECOND_READING"):
         return ctx, mod
     viol, und = _open_questions(ctx)
-    if viol or not und:
+    if not viol and not und:
         return ctx, mod
     try:
         ctx2, _ = _analyse_once(prop, root, True)
@@ -68,10 +73,44 @@ def analyse(prop, root):
     if not ctx2.prog.dissolved:
         return ctx, mod
     viol2, und2 = _open_questions(ctx2)
+
+    def open_rules(c, u):
+        """rule ids a reading left open; '*' when the reading as a whole is incomplete (engine trouble, a floor not met)."""
+        out = set()
+        for o in u:
+            if hasattr(o, "rule"):
+                out.add("*" if o.rule.endswith(".engine") or o.rule.endswith(".selftest") else o.rule)
+            else:
+                out.add("*")
+        return out
+    open1, open2 = open_rules(ctx, und), open_rules(ctx2, und2)
+    near = lambda o, c: [x.split(":", 1)[1] for x in c.prog.dissolved if str(o.site).startswith(x.split(":", 1)[0] + ":")] or ["helpers of other modules"]
+    if viol:
+        # the first reading reports something: is it confirmed by the second?
+        rules2 = {o.rule for o in viol2}
+        changed = False
+        for o in viol:
+            if o.rule in rules2 or o.rule in open2 or "*" in open2:
+                continue
+            o.status = UNDECIDED
+            o.detail += " [not confirmed: read again with %s inlined, rule %s holds everywhere - two readings of equivalent code disagree, so this is not reported as a violation]" % (
+                ", ".join(near(o, ctx2)[:6]), o.rule)
+            changed = True
+        if changed:
+            ctx.info["second_reading"] = {"why": "the first reading reported violations", "helpers_inlined": ctx2.prog.dissolved,
+                                          "violations_not_confirmed": sorted({o.rule for o in viol if o.status == UNDECIDED})}
+        return ctx, mod
+    # nothing violated, something undecided
+    for o in viol2:
+        if not (o.rule in open1 or "*" in open1):
+            # the first reading had decided this rule (it holds there): a contradiction, not a finding
+            o.status = UNDECIDED
+            o.detail += " [only in the second reading, after inlining %s; the reading of the tree as written decides rule %s and finds it holding - the two disagree, so this is not reported as a violation]" % (
+                ", ".join(near(o, ctx2)[:6]), o.rule)
+    viol2, und2 = _open_questions(ctx2)
     if viol2 or not und2:
         for o in viol2:
-            near = [x.split(":", 1)[1] for x in ctx2.prog.dissolved if str(o.site).startswith(x.split(":", 1)[0] + ":")] or ["helpers of other modules"]
-            o.detail += " [second reading, after inlining %s]" % ", ".join(near[:8])
+            o.detail += " [second reading, after inlining %s]" % ", ".join(near(o, ctx2)[:8])
         ctx2.info["second_reading"] = {
             "why": "the tree as written left %d obligation(s) undecided" % len(und),
             "first_reading_undecided": [getattr(o, "detail", None) or str(o[0]) for o in und][:12],
